@@ -354,6 +354,26 @@ func ruleWhoWritesTables(w *World, r *Report, rSingle, rCache string, la *LockAn
 				if tv, ok := info.Types[cl]; ok && isNamedType(tv.Type, modPath, "scope") {
 					v, has := compositeFields(cl)[ro.cache.Name()]
 					ok := has && strings.HasPrefix(exprStr(v), "make(")
+					if !has {
+						// the literal leaves the cache out and the allocating function assigns it right away:
+						// every assignment of the field in that function is a fresh make
+						n, fresh := 0, true
+						ast.Inspect(fi.Decl.Body, func(y ast.Node) bool {
+							if as, isAs := y.(*ast.AssignStmt); isAs {
+								for i, l := range as.Lhs {
+									if fieldOf(info, l) == ro.cache && i < len(as.Rhs) {
+										n++
+										if !strings.HasPrefix(exprStr(as.Rhs[i]), "make(") {
+											fresh = false
+										}
+										v = as.Rhs[i]
+									}
+								}
+							}
+							return true
+						})
+						ok = n > 0 && fresh
+					}
 					r.Check(ok, rCache, fi.Name()+"#fresh-cache", cl.Pos(), false, "every new scope starts with its own empty cache", "a new scope's cache is "+exprStr(v)+", not a fresh map: scopes share instances")
 				}
 			}
